@@ -485,7 +485,9 @@ def make_transparent(img, color, tolerance=10):
 def _make_transparent(img, color, tolerance=10):
     img.load()
 
-    if img.mode == 'P':
+    if img.mode == 'P' or 'transparency' in img.info:
+        # paletted or RGB/L image with tRNS transparency: keep that
+        # transparency as alpha channel
         img = img.convert('RGBA')
 
     channels = img.split()
